@@ -1,2 +1,275 @@
-(** C09 *)
+(** C09 — A pulled value stream reproduces the producer's bytes exactly and
+    ends once.  The model is src/value_stream.rs: ChunkSink, produce, the
+    lookahead Session behind /_svs/next, the session-table entry of a stream id
+    (next / cancel), the next response, and the client-side reassembly.
+    This file contains only statements (closed by [exact] or a one-line
+    application), their pins and their assumptions. *)
 From RepeV Require Import Model.Svs Proofs.SvsProofs.
+
+Local Open Scope nat_scope.
+
+(** ** the sink: chunk batching, for every chunk size and every write segmentation *)
+
+(** [chunks_of] cuts a byte stream without loss, and all its chunks have exactly
+    [n] bytes except a non-empty last one of at most [n]; it is the only such
+    cutting *)
+Theorem C09_chunks_of_spec : forall n l, 0 < n ->
+  concat (chunks_of n l) = l /\ chunking n (chunks_of n l).
+Proof. exact chunks_of_spec. Qed.
+
+Theorem C09_chunks_of_unique : forall n cs, 0 < n -> chunking n cs -> cs = chunks_of n (concat cs).
+Proof. intros n cs Hn. exact (chunking_unique n Hn cs). Qed.
+
+(** the loop of [ChunkSink::write], over any sequence of writes: the chunks
+    sent, followed by the tail [flush_remaining] sends, are [chunks_of] of the
+    concatenated bytes; the tail is always shorter than a chunk *)
+Theorem C09_sink_write_chunks : forall n ws, 0 < n ->
+  fst (sink_writes n [] ws) ++ tailc (snd (sink_writes n [] ws)) = chunks_of n (concat ws) /\
+  length (snd (sink_writes n [] ws)) < n.
+Proof. exact sink_writes_chunks. Qed.
+
+(** the same for the byte-at-a-time sink, and the two sinks agree *)
+Theorem C09_sink_bytes_chunks : forall n ws, 0 < n ->
+  fst (sink_bytes_writes n [] ws) ++ tailc (snd (sink_bytes_writes n [] ws)) = chunks_of n (concat ws).
+Proof. exact sink_bytes_writes_chunks. Qed.
+
+Theorem C09_sink_models_agree : forall n ws, 0 < n -> sink_writes n [] ws = sink_bytes_writes n [] ws.
+Proof. exact sink_models_agree. Qed.
+
+(** the messages of a stream depend on the bytes only, not on how they were written *)
+Theorem C09_segmentation_irrelevant : forall n ws1 ws2 failed, 0 < n -> concat ws1 = concat ws2 ->
+  produce n ws1 failed = produce n ws2 failed.
+Proof. exact produce_segmentation_irrelevant. Qed.
+
+(** ** the exchange seen by a consumer that pulls until the first last / error *)
+
+(** the responses are exactly the chunks of the stream, in order, the final one
+    flagged, and the session is released *)
+Theorem C09_pulls_are_the_chunks : forall n ws fuel, 0 < n -> lenw ws < fuel ->
+  raw_pulls fuel (open_handler n ws false) = (pulls_ok (chunks_of n (concat ws)), None).
+Proof. exact raw_exchange_ok. Qed.
+
+(** nothing lost, duplicated or reordered *)
+Theorem C09_pull_concat : forall n ws fuel, 0 < n -> lenw ws < fuel ->
+  bodies (fst (raw_pulls fuel (open_handler n ws false))) = concat ws.
+Proof. exact pull_concat. Qed.
+
+(** exactly one response carries [last], and it is the final one *)
+Theorem C09_exactly_one_last : forall n ws fuel, 0 < n -> lenw ws < fuel ->
+  exists init b, fst (raw_pulls fuel (open_handler n ws false)) = init ++ [RChunk b true] /\ Forall not_last init.
+Proof. exact exactly_one_last. Qed.
+
+(** an empty payload yields a single empty final chunk *)
+Theorem C09_empty_payload_single_empty_last : forall n ws fuel, 0 < n -> 0 < fuel -> concat ws = [] ->
+  raw_pulls fuel (open_handler n ws false) = ([RChunk [] true], None).
+Proof. exact empty_payload_single_empty_last. Qed.
+
+(** pulling past the end (clean or failed), or after a cancel, is an error *)
+Theorem C09_pull_after_end_errors : forall n ws failed fuel, 0 < n -> lenw ws < fuel ->
+  next_handler (snd (raw_pulls fuel (open_handler n ws failed))) = (RErr EC_INVALID_QUERY, None).
+Proof. exact pull_after_end_errors. Qed.
+
+Theorem C09_pull_after_cancel_errors : forall t, next_handler (cancel_handler t) = (RErr EC_INVALID_QUERY, None).
+Proof. exact pull_after_cancel_errors. Qed.
+
+(** a body writer that fails after any writes [ws]: the consumer sees chunks
+    without a [last] flag, then an error; what was delivered is a prefix of the
+    bytes written *)
+Theorem C09_fail_never_last : forall n ws fuel, 0 < n -> lenw ws < fuel ->
+  exists init, fst (raw_pulls fuel (open_handler n ws true)) = init ++ [RErr EC_INTERNAL] /\
+               Forall not_last init /\ exists r, concat ws = bodies init ++ r.
+Proof. exact fail_never_last. Qed.
+
+(** the same at the level of the channel: a [Fail] at any message index, or a
+    channel closed without a terminal message (producer thread gone), after the
+    chunks [cs] *)
+Theorem C09_fail_at_any_message_index : forall tl, term_fail tl -> forall cs fuel, length cs < fuel ->
+  raw_pulls fuel (st (map MChunk cs ++ tl) None) = (pulls_fail cs, None) /\
+  ends_in_error (pulls_fail cs) = true /\ bodies (pulls_fail cs) = concat (removelast cs).
+Proof.
+  intros tl Ht cs fuel Hf.
+  exact (conj (raw_pulls_fail tl Ht cs fuel Hf) (conj (ends_in_error_pulls_fail cs) (bodies_pulls_fail cs))).
+Qed.
+
+(** a consumer that stops after [j] requests has received the first [j] responses *)
+Theorem C09_early_stop_prefix : forall n ws j, 0 < n ->
+  fst (raw_pulls j (open_handler n ws false)) = firstn j (pulls_ok (chunks_of n (concat ws))).
+Proof.
+  intros n ws j Hn. unfold open_handler. rewrite (produce_ok n ws Hn).
+  exact (raw_pulls_prefix [MEnd] pulls_ok (or_introl (conj (term_end []) eq_refl)) _ j).
+Qed.
+
+(** ** reassembly by the pullers *)
+Theorem C09_reader_reassembles : forall n ws fuel, 0 < n -> lenw ws < fuel ->
+  chunk_reader fuel (open_handler n ws false) = HBytes (concat ws).
+Proof. exact reader_ok. Qed.
+
+Theorem C09_reader_fails_on_failure : forall n ws fuel, chunk_reader fuel (open_handler n ws true) = HErr.
+Proof. exact reader_fail. Qed.
+
+(** ** the bounded channel: for every depth (0 = rendezvous) and every schedule
+    of producer and consumer steps, received ++ queued ++ unsent is the list of
+    messages in sending order *)
+Theorem C09_channel_fifo : forall d msgs c, chan_reach d (mkChan msgs [] []) c ->
+  ch_got c ++ ch_queue c ++ ch_pending c = msgs.
+Proof. exact chan_fifo. Qed.
+
+(** ** the oracle accepts the model on every well-formed case *)
+Theorem C09_holds : forall c, c09_wf c = true -> ok_C09 c (model_C09 c) = true.
+Proof. exact ok_model_C09. Qed.
+
+(** the compressed path, for any compressor with a left inverse and whatever
+    writes the encoder performs on the sink *)
+Theorem C09_holds_compressed : forall (compress decompress : list byte -> list byte),
+  (forall d, decompress (compress d) = d) ->
+  forall c ws, c_zstd c = true -> c_fail c = None -> 0 < N.to_nat (c_n c) ->
+    concat ws = compress (c_data c) ->
+    ok_C09 c (model_C09_with c ws (decompress (concat ws))) = true.
+Proof. exact ok_model_zstd. Qed.
+
+(** ** non-vacuity *)
+Local Open Scope N_scope.
+
+(** a payload that is an exact multiple of the chunk size: the final full chunk
+    carries [last], there is no trailing empty chunk; depth 0 *)
+Example C09_nonvacuous_exact_multiple :
+  let c := mkC09 [1; 2; 3; 4] 2 0 [1; 2] None false 4 0 1 in
+  c09_wf c = true /\
+  model_C09 c = mkO09 [RChunk [1; 2] false; RChunk [3; 4] true] (RErr 3) [RChunk [1; 2] false] (RErr 3)
+                      [] (HBytes [1; 2; 3; 4]) None.
+Proof. vm_compute. split; reflexivity. Qed.
+
+(** one byte more, one byte less, and the empty payload *)
+Example C09_nonvacuous_residues :
+  o_pulls (model_C09 (mkC09 [1; 2; 3; 4; 5] 2 1 [] None false 3 1 0))
+    = [RChunk [1; 2] false; RChunk [3; 4] false; RChunk [5] true] /\
+  o_pulls (model_C09 (mkC09 [1; 2; 3] 2 1 [0; 3; 9] None false 4 2 0)) = [RChunk [1; 2] false; RChunk [3] true] /\
+  o_pulls (model_C09 (mkC09 [] 7 3 [] None false 4 0 0)) = [RChunk [] true].
+Proof. vm_compute. repeat split; reflexivity. Qed.
+
+(** a failure after 5 of 6 bytes with chunks of 2: two full chunks were sent,
+    the lookahead swallows the second, the partial tail is never flushed *)
+Example C09_nonvacuous_failure :
+  let c := mkC09 [1; 2; 3; 4; 5; 6] 2 0 [3] (Some 5) false 4 0 3 in
+  c09_wf c = true /\
+  model_C09 c = mkO09 [RChunk [1; 2] false; RErr 9] (RErr 3) [RChunk [1; 2] false; RErr 9] (RErr 3) [] HErr None /\
+  ok_C09 c (model_C09 c) = true.
+Proof. vm_compute. repeat split; reflexivity. Qed.
+
+(** the oracle is not trivially true: it rejects a missing end marker, a second
+    end marker, a duplicated chunk, reordered chunks, a lost byte, a trailing
+    empty chunk after a full final one being marked instead of it, a successful
+    pull past the end, an end marker after a producer failure, and a puller
+    returning short data *)
+Example C09_oracle_rejects :
+  let c := mkC09 [1; 2; 3; 4] 2 0 [] None false 4 0 1 in
+  let good := model_C09 c in
+  let with_pulls p := mkO09 p (RErr 3) [RChunk [1; 2] false] (RErr 3) [] (HBytes [1; 2; 3; 4]) None in
+  ok_C09 c good = true /\
+  ok_C09 c (with_pulls [RChunk [1; 2] false; RChunk [3; 4] false]) = false /\
+  ok_C09 c (with_pulls [RChunk [1; 2] true; RChunk [3; 4] true]) = false /\
+  ok_C09 c (with_pulls [RChunk [1; 2] false; RChunk [1; 2] false; RChunk [3; 4] true]) = false /\
+  ok_C09 c (with_pulls [RChunk [3; 4] false; RChunk [1; 2] true]) = false /\
+  ok_C09 c (with_pulls [RChunk [1; 2] false; RChunk [3] true]) = false /\
+  ok_C09 c (with_pulls [RChunk [1; 2] false; RChunk [3; 4] false; RChunk [] true; RChunk [] true]) = false /\
+  ok_C09 c (mkO09 (o_pulls good) (RChunk [] true) (o_cancel_pulls good) (RErr 3) [] (o_vec good) None) = false /\
+  ok_C09 c (mkO09 (o_pulls good) (RErr 3) (o_cancel_pulls good) (RChunk [] true) [] (o_vec good) None) = false /\
+  ok_C09 c (mkO09 (o_pulls good) (RErr 3) (o_cancel_pulls good) (RErr 3) [] (HBytes [1; 2; 3]) None) = false /\
+  ok_C09 c (mkO09 (o_pulls good) (RErr 3) [RChunk [3; 4] false] (RErr 3) [] (o_vec good) None) = false /\
+  let cf := mkC09 [1; 2; 3; 4; 5; 6] 2 0 [] (Some 5) false 4 0 0 in
+  ok_C09 cf (mkO09 [RChunk [1; 2] false; RChunk [3; 4] true] (RErr 3) [] (RErr 3) [] HErr None) = false /\
+  ok_C09 cf (mkO09 [RChunk [1; 2] false; RErr 9] (RErr 3) [] (RErr 3) [] (HBytes [1; 2]) None) = false /\
+  ok_C09 cf (mkO09 [RChunk [1; 2] false; RChunk [9; 9] false; RErr 9] (RErr 3) [] (RErr 3) [] HErr None) = false.
+Proof. vm_compute. repeat split; reflexivity. Qed.
+
+(** the channel semantics has runs: depth 1, two messages, an interleaving *)
+Example C09_nonvacuous_channel :
+  chan_reach 1 (mkChan [MChunk [1]; MEnd] [] []) (mkChan [] [] [MChunk [1]; MEnd]).
+Proof.
+  eapply reach_step; [eapply reach_step; [eapply reach_step; [eapply reach_step; [apply reach_refl|]|]|]|].
+  - apply (ch_send 1 (MChunk [1]) [MEnd] [] []). cbn. lia.
+  - apply (ch_recv 1 (MChunk [1]) [MEnd] [] []).
+  - apply (ch_send 1 MEnd [] [] [MChunk [1]]). cbn. lia.
+  - apply (ch_recv 1 MEnd [] [] [MChunk [1]]).
+Qed.
+
+(** a left-invertible "compressor" exists (so [C09_holds_compressed] is not vacuous) *)
+Example C09_nonvacuous_compressed :
+  let c := mkC09 [7; 8; 9] 2 2 [] None true 3 1 1 in
+  ok_C09 c (model_C09_with c [[40]; 7 :: [8; 9]] (tl (concat [[40]; 7 :: [8; 9]]))) = true.
+Proof.
+  exact (C09_holds_compressed (fun d => 40 :: d) (@tl byte) (fun d => eq_refl)
+           (mkC09 [7; 8; 9] 2 2 [] None true 3 1 1) [[40]; 7 :: [8; 9]] eq_refl eq_refl ltac:(cbn; lia) eq_refl).
+Qed.
+
+Local Open Scope nat_scope.
+
+Check C09_chunks_of_spec : forall n l, 0 < n ->
+  concat (chunks_of n l) = l /\ chunking n (chunks_of n l).
+Check C09_chunks_of_unique : forall n cs, 0 < n -> chunking n cs -> cs = chunks_of n (concat cs).
+Check C09_sink_write_chunks : forall n ws, 0 < n ->
+  fst (sink_writes n [] ws) ++ tailc (snd (sink_writes n [] ws)) = chunks_of n (concat ws) /\
+  length (snd (sink_writes n [] ws)) < n.
+Check C09_sink_bytes_chunks : forall n ws, 0 < n ->
+  fst (sink_bytes_writes n [] ws) ++ tailc (snd (sink_bytes_writes n [] ws)) = chunks_of n (concat ws).
+Check C09_sink_models_agree : forall n ws, 0 < n -> sink_writes n [] ws = sink_bytes_writes n [] ws.
+Check C09_segmentation_irrelevant : forall n ws1 ws2 failed, 0 < n -> concat ws1 = concat ws2 ->
+  produce n ws1 failed = produce n ws2 failed.
+Check C09_pulls_are_the_chunks : forall n ws fuel, 0 < n -> lenw ws < fuel ->
+  raw_pulls fuel (open_handler n ws false) = (pulls_ok (chunks_of n (concat ws)), None).
+Check C09_pull_concat : forall n ws fuel, 0 < n -> lenw ws < fuel ->
+  bodies (fst (raw_pulls fuel (open_handler n ws false))) = concat ws.
+Check C09_exactly_one_last : forall n ws fuel, 0 < n -> lenw ws < fuel ->
+  exists init b, fst (raw_pulls fuel (open_handler n ws false)) = init ++ [RChunk b true] /\ Forall not_last init.
+Check C09_empty_payload_single_empty_last : forall n ws fuel, 0 < n -> 0 < fuel -> concat ws = [] ->
+  raw_pulls fuel (open_handler n ws false) = ([RChunk [] true], None).
+Check C09_pull_after_end_errors : forall n ws failed fuel, 0 < n -> lenw ws < fuel ->
+  next_handler (snd (raw_pulls fuel (open_handler n ws failed))) = (RErr EC_INVALID_QUERY, None).
+Check C09_pull_after_cancel_errors : forall t, next_handler (cancel_handler t) = (RErr EC_INVALID_QUERY, None).
+Check C09_fail_never_last : forall n ws fuel, 0 < n -> lenw ws < fuel ->
+  exists init, fst (raw_pulls fuel (open_handler n ws true)) = init ++ [RErr EC_INTERNAL] /\
+               Forall not_last init /\ exists r, concat ws = bodies init ++ r.
+Check C09_fail_at_any_message_index : forall tl, term_fail tl -> forall cs fuel, length cs < fuel ->
+  raw_pulls fuel (st (map MChunk cs ++ tl) None) = (pulls_fail cs, None) /\
+  ends_in_error (pulls_fail cs) = true /\ bodies (pulls_fail cs) = concat (removelast cs).
+Check C09_early_stop_prefix : forall n ws j, 0 < n ->
+  fst (raw_pulls j (open_handler n ws false)) = firstn j (pulls_ok (chunks_of n (concat ws))).
+Check C09_reader_reassembles : forall n ws fuel, 0 < n -> lenw ws < fuel ->
+  chunk_reader fuel (open_handler n ws false) = HBytes (concat ws).
+Check C09_reader_fails_on_failure : forall n ws fuel, chunk_reader fuel (open_handler n ws true) = HErr.
+Check C09_channel_fifo : forall d msgs c, chan_reach d (mkChan msgs [] []) c ->
+  ch_got c ++ ch_queue c ++ ch_pending c = msgs.
+Check C09_holds : forall c, c09_wf c = true -> ok_C09 c (model_C09 c) = true.
+Check C09_holds_compressed : forall (compress decompress : list byte -> list byte),
+  (forall d, decompress (compress d) = d) ->
+  forall c ws, c_zstd c = true -> c_fail c = None -> 0 < N.to_nat (c_n c) ->
+    concat ws = compress (c_data c) ->
+    ok_C09 c (model_C09_with c ws (decompress (concat ws))) = true.
+
+(** the auxiliary notions used in the statements, spelled out *)
+Check (eq_refl : tailc = fun r => match r with [] => [] | _ :: _ => [r] end).
+Check (eq_refl : not_last = fun r => exists b, r = RChunk b false).
+Check (eq_refl : pulls_ok [[1%N]; [2%N]; [3%N]] = [RChunk [1%N] false; RChunk [2%N] false; RChunk [3%N] true]).
+Check (eq_refl : pulls_fail [[1%N]; [2%N]; [3%N]] = [RChunk [1%N] false; RChunk [2%N] false; RErr 9%N]).
+Check (eq_refl : chunking 2 [[1%N; 2%N]; [3%N]] = (2 = 2 /\ 0 < 1 <= 2)).
+
+Print Assumptions C09_chunks_of_spec.
+Print Assumptions C09_chunks_of_unique.
+Print Assumptions C09_sink_write_chunks.
+Print Assumptions C09_sink_bytes_chunks.
+Print Assumptions C09_sink_models_agree.
+Print Assumptions C09_segmentation_irrelevant.
+Print Assumptions C09_pulls_are_the_chunks.
+Print Assumptions C09_pull_concat.
+Print Assumptions C09_exactly_one_last.
+Print Assumptions C09_empty_payload_single_empty_last.
+Print Assumptions C09_pull_after_end_errors.
+Print Assumptions C09_pull_after_cancel_errors.
+Print Assumptions C09_fail_never_last.
+Print Assumptions C09_fail_at_any_message_index.
+Print Assumptions C09_early_stop_prefix.
+Print Assumptions C09_reader_reassembles.
+Print Assumptions C09_reader_fails_on_failure.
+Print Assumptions C09_channel_fifo.
+Print Assumptions C09_holds.
+Print Assumptions C09_holds_compressed.
